@@ -506,7 +506,14 @@ func genMops(w *bufio.Writer, r *rand.Rand, n, nkeys int, mixed bool) {
 
 func genProgram(w *bufio.Writer, r *rand.Rand, id string, nops int, reopenW int) {
 	memsize := []int{120, 200, 400, 1000, 4096, 100000}[r.Intn(6)]
-	fmt.Fprintf(w, "case %s memsize=%d maxmem=1000 sync=%s\n", id, memsize, []string{"immediate", "immediate", "none", "batch"}[r.Intn(4)])
+	maxmem := 1000
+	if memsize <= 400 && r.Intn(5) == 0 {
+		// more sealed tables wait for the (held) background flush than MaxMemTables: writes go on
+		// all the same; no reopen in these programs (the log outgrows the recovery budget: D11)
+		maxmem = 2 + r.Intn(2)
+		reopenW = 0
+	}
+	fmt.Fprintf(w, "case %s memsize=%d maxmem=%d sync=%s\n", id, memsize, maxmem, []string{"immediate", "immediate", "none", "batch"}[r.Intn(4)])
 	nkeys := 2 + r.Intn(5)
 	for i := 0; i < nops; i++ {
 		if r.Intn(25) == 0 {
